@@ -41,4 +41,9 @@ TEXT = {
         "level": "Exploration: generated exchanges (document grammar with doctype/head/body variants, nested content, existing scripts/styles/comments, entities, non-ASCII, sizes up to several MiB; encodings none/gzip/br/deflate/zstd/junk; content types; CSP shapes; HX-Request; skip marker; Content-Length vs chunked backend) go backend -> proxy.New -> client over loopback HTTP. For HTML in identity/gzip/br the client-decoded body must parse to the original DOM plus exactly one reload script (with the first script-src nonce) as last child of body and Content-Length must equal the bytes received; every other class must arrive byte-identical with unchanged headers.",
         "note": "Trusted: golang.org/x/net/html's parser for DOM comparison (also used by the proxy, so the oracle compares documents, it does not validate the parser), the harness's own CSP nonce reading, gzip/brotli decoders.",
     },
+    "C15": {
+        "technique": "rapid-generated directory trees and flag/worker configurations run through generatecmd.Run under -race, compared file-by-file with an independently computed expected tree",
+        "level": "Exploration: generated trees (skipped and look-alike directory names at every depth, valid/unparsable/un-gofmt-able templates, stale, newer and orphaned _templ.go, other files, explicit mtimes) x keep-orphaned / lazy / include-version x 1..32 workers x GOMAXPROCS; the command is run twice in-process; every path and every byte of the resulting tree is compared with an expected tree computed per file (single-file generation with the relative file name, own skip/orphan/lazy rules); error status must be 'fails iff some reachable template is ungenerable'.",
+        "note": "Trusted: single-file parse+generate+gofmt from /repo as the reference for file contents (the property defines the expected content that way); the harness's own implementation of the skip, orphan and lazy rules. Schedules are sampled.",
+    },
 }
